@@ -359,4 +359,28 @@ def lf6(F, R):
             if (callee_of(t) or "").endswith("::iter"):
                 it = tstr(fn.term_of_operand(t["args"][0], b))
         ok = ok and it is not None and "contents" in it
+    if not ok and not fn.loops():
+        # the same computation as `self.contents.iter().fold(0, |sum, &b| sum.rotate_right(1).wrapping_add(b))`
+        from .mir import inline_closure
+        folds = [(b, t) for b, t in fn.calls() if (callee_of(t) or "").endswith("Iterator::fold")]
+        if len(folds) == 1:
+            fb, ft = folds[0]
+            ct = fn.call_term(ft, fb)
+            src = strip_refs(ct[2][0])
+            while src[0] == "call" and src[1] and src[1].split("::")[-1] in ("iter", "into_iter", "copied", "cloned") and src[2]:
+                src = strip_refs(src[2][0])
+            acc, byte = ("sym", "acc"), ("sym", "byte")
+            body = inline_closure(F, ct[2][2], [acc, byte])
+            if body is None:
+                body = inline_closure(F, ct[2][2], [acc, ("ref", byte)])
+
+            def is_byte(x):
+                x = strip_refs(x)
+                while x[0] == "place" and all(e == "*" for e in x[2]):
+                    x = strip_refs(x[1])
+                return x == byte
+            ok = (body is not None and body[0] == "call" and body[1] and body[1].endswith("wrapping_add") and is_byte(body[2][1])
+                  and body[2][0][0] == "call" and body[2][0][1].endswith("rotate_right") and strip_refs(body[2][0][2][0]) == acc and body[2][0][2][1][:2] == ("c", 1)
+                  and strip_refs(ct[2][1])[:2] == ("c", 0) and "contents" in tstr(src) and "Range" not in tstr(src)
+                  and any(strip_refs(v) == ct or (strip_refs(v)[0] == "call" and strip_refs(v)[3] == fb) for (_b, _i, v) in [(d[1], 0, fn.term_of_rvalue(d[3], d[1]) if d[0] == "assign" else fn.call_term(d[2], d[1])) for d in fn.defs().get(0, [])]))
     R.require(ok, fn, "fold", "csum must be result = result.rotate_right(1).wrapping_add(b) over self.contents starting at 0", fn.loc(0))
